@@ -32,6 +32,9 @@ C(kd, n) == <<kd, n>>
 Big == 2 * Margin + ErrLen + 4
 Mid == 2 * Margin + 3
 \* hand-picked shapes: the thresholds of the code (1 texel, ErrLen, 3 * ErrLen) straddled by contig and gap lengths
+\* (d shifts the chain against the texel grid, so that some texel boundary splits the second tiny contig into two parts shorter than ErrLen)
+TinyChain(d) == << <<C("+", Big + d), C("g", 2 * ErrLen), C("+", MaxI(1, ErrLen - 2)), C("g", 2 * ErrLen), C("+", ErrLen + 1), C("g", 2 * ErrLen), C("+", Mid),
+                    C("g", 2 * ErrLen), C("+", Big)>> >>
 FixedShapes == {
    << <<C("+", Big)>> >>,
    << <<C("-", Big)>> >>,
@@ -47,6 +50,9 @@ FixedShapes == {
    << <<C("+", Mid), C("g", 200), C("+", Mid)>>, <<C("+", 1)>>, <<C("+", Mid)>> >>,
    << <<C("g", 2), C("+", Mid), C("g", 200), C("+", Mid), C("g", 1)>> >>,
    << <<C("+", Mid), C("g", 1), C("g", 200), C("+", Mid)>> >>,
+   \* two consecutive sub-texel contigs between large ones (a piece boundary inside the second one makes both pieces hold it by less than
+   \* ErrLen; a further cut in a large contig makes the overhang resolution run a second round)
+   TinyChain(0), TinyChain(1), TinyChain(2), TinyChain(3),
    \* tiny scaffolds (absent from the map when shorter than a texel) whose rows do not simply alternate contig / gap
    << <<C("+", Big)>>, <<C("g", 1), C("+", 1), C("h", 1), C("+", 1)>> >>,
    << <<C("+", Big)>>, <<C("+", 1), C("+", 1), C("g", 1), C("-", 1)>> >>,
